@@ -155,6 +155,8 @@ class LQSuite(Suite):
                 break
         # conservation and order: items handed out, in pop arrival order, = prefix of the surviving pushes
         got = [int(pop_state[i][2:]) for i in sorted(pop_state) if pop_state[i].startswith("v:")]
+        if -666 in got:
+            msgs.append("corrupt: a pop received a destroyed or moved-from item: %s" % got)
         surv = [push_val[i] for i in sorted(push_val) if push_state.get(i) in ("ok", "pending")]
         if len(set(got)) != len(got):
             msgs.append("duplicate: an item was delivered twice: %s" % got)
@@ -187,8 +189,8 @@ class SLQSuite(Suite):
         lines = ["case 0 slq %d" % limit]
         v = 100
         for o in ops:
-            if o == "push":
-                lines.append("push %d" % v)
+            if o.split()[-1] == "push":
+                lines.append("%s %d" % (o, v))
                 v += 1
             else:
                 lines.append(o)
@@ -204,9 +206,19 @@ class SLQSuite(Suite):
                 for ops in itertools.product(alpha, repeat=n):
                     if ops.count("push") >= 1 and "pop" in ops:
                         cases.append(self._mk(limit, ops))
+        # operations issued while another one is inside its lock region (they block and take effect after it)
+        ext = alpha + ["hold size", "hold pop"]
+        for limit in (1, 2):
+            for n in range(2, (5 if tier == "quick" else 6) - (limit - 1) + 1):
+                for ops in itertools.product(ext, repeat=n):
+                    h = [k for k, o in enumerate(ops) if o.startswith("hold")]
+                    if h and h[0] < n - 1 and "push" in ops:
+                        cases.append(self._mk(limit, ops))
         n = 2000 if tier == "quick" else 50000
         for i in range(n):
             limit = rng.choice([1, 1, 2, 2, 3, 4])
+            holdp = rng.choice([0.0, 0.08, 0.2])
+            held = False
             nops = rng.randint(4, 14) if rng.random() < 0.3 else rng.randint(10, 60)
             bias = rng.choice([0.4, 0.5, 0.6])
             lazy = rng.choice([0.1, 0.3, 0.6])
@@ -217,8 +229,17 @@ class SLQSuite(Suite):
                     bias = rng.choice([0.25, 0.5, 0.75])
                 r = rng.random()
                 if infl and (infl >= 5 or rng.random() > lazy):
-                    ops.append("deliver %d" % rng.randrange(infl))
+                    j = rng.randrange(infl)
+                    ops.append("deliver %d" % j)
                     infl -= 1
+                    if held and j == 0:
+                        held = False
+                elif held or rng.random() < holdp:
+                    # the lock is (or becomes) held: whatever is issued now blocks; only the count of parked calls is tracked
+                    o = rng.choice(["push", "pop", "pop", "upush %d" % rng.randint(1, 9), "upop %d" % rng.randint(1, 9), "size"])
+                    ops.append(o if held else "hold " + o)
+                    held = True
+                    infl += 1
                 elif r < 0.72:
                     if rng.random() < bias:
                         ops.append("push")
@@ -267,11 +288,11 @@ class SLQSuite(Suite):
         open_ = 0
         for l in out:
             h = l.split(" ;")[0]
-            if h.startswith("deliver ") and not h.startswith("deliver none"):
+            if h.startswith("deliver r=") and h.rsplit(":", 1)[-1] not in ("paused", "midcall", "blocked"):
                 open_ -= 1
-            elif open_ > 0 and not h.startswith("end"):
+            elif open_ > 0 and not h.startswith("end") and not h.startswith("deliver"):
                 return True
-            if " paused" in h or " midcall" in h:
+            if any(h.split()[1:2] == [x] for x in ("paused", "midcall", "holding", "blocked")):
                 open_ += 1
         return False
 
@@ -299,10 +320,12 @@ class SLQSuite(Suite):
                 "max_resolutions_in_flight": max_inflight, "lock_regions_run_while_a_resolution_was_in_flight": delayed}
 
     def oracle(self, case, out):
-        """C10 on an interleaved trace.  While every operation is one lock region (no `midcall`), each line is checked
-        against what the statement prescribes for that lock step (back-pressure decision, FIFO of items / blocked pushes /
-        waiting pops, unblock_*).  Always, whenever no call is in progress: a push future is pending only while exactly
-        `limit` items wait, a pop future only while nothing waits and nothing is blocked; every item delivered once."""
+        """C10 on an interleaved trace.  An operation takes effect on the line that shows its result (an operation that
+        was holding or blocked: on its `deliver` line - its linearisation point).  While every operation is one lock
+        region, each line is checked against what the statement prescribes for that lock step (back-pressure decision,
+        FIFO of items / blocked pushes / waiting pops, unblock_*).  Always, whenever no call is in progress: a push future
+        is pending only while exactly `limit` items wait, a pop future only while nothing waits and nothing is blocked;
+        every item delivered at most once, intact."""
         msgs = []
         hdr = case["lines"][0].split()
         if hdr[2] != "slq":
@@ -310,24 +333,26 @@ class SLQSuite(Suite):
         limit = int(hdr[3])
         ops = case["lines"][1:]
         push_val, push_state, pop_state = {}, {}, {}     # states: 'incall' | 'pending' | outcome
+        push_order, pop_order = [], []                   # ids in linearisation order
         queue, blocked, waiters = [], [], []             # strict bookkeeping: values queued, push ids blocked, pop ids parked
-        parked = []       # calls in progress, in park order: dict(kind, label, events(set), ret, midcall)
-        concurrent = False                               # some operation used more than one lock region
-        finished = False
+        parked = []                                      # calls in progress, in the order in which they parked
+        state = {"concurrent": False, "finished": False}
 
         def settle_future(kind, i, o):
             st = pop_state if kind == "pop" else push_state
             if st.get(i) not in ("pending", "incall"):
                 msgs.append("duplicate: %s#%d resolved twice or never issued (%s)" % (kind, i, o))
             st[i] = o
+            if kind == "pop" and o == "v:-666":
+                msgs.append("corrupt: pop#%d received a destroyed or moved-from item" % i)
 
-        def quiescent_check(where, pending_push=None, pending_pop=None):
+        def quiescent_check(where):
             """no call in progress: evaluate the invariants from the futures alone"""
             ok_push = sum(1 for s_ in push_state.values() if s_ == "ok")
-            got = sum(1 for s_ in pop_state.values() if s_.startswith("v:"))
-            n = ok_push - got
-            pp = pending_push if pending_push is not None else sorted(i for i, s_ in push_state.items() if s_ == "pending")
-            pq = pending_pop if pending_pop is not None else sorted(i for i, s_ in pop_state.items() if s_ == "pending")
+            got_ = sum(1 for s_ in pop_state.values() if s_.startswith("v:"))
+            n = ok_push - got_
+            pp = sorted(i for i, s_ in push_state.items() if s_ == "pending")
+            pq = sorted(i for i, s_ in pop_state.items() if s_ == "pending")
             if n > limit:
                 msgs.append("size: %d items are waiting, limit %d (%s)" % (n, limit, where))
             if pp and n < limit:
@@ -336,8 +361,94 @@ class SLQSuite(Suite):
             if pq and (n > 0 or pp):
                 msgs.append("lost: pop %s parked although %d items are waiting and pushes %s are blocked (%s)" % (pq, n, pp, where))
 
+        def takers(kinds):
+            return sum(1 for c in parked if c["type"] in ("deferred", "midcall") and c["w"][0] in kinds)
+
+        def apply(w, label, status):
+            """the operation `w` takes effect now, returning / parking with `status`"""
+            strict = not state["concurrent"]
+            paused = status == "paused"
+            if w[0] == "push":
+                i = int(label[5:])
+                push_val[i] = int(w[1])
+                push_order.append(i)
+                push_state[i] = "incall" if paused else status
+                if strict:
+                    if waiters:
+                        tgt = waiters.pop(0)
+                        if not paused:
+                            msgs.append("backpressure: push with a consumer waiting must hand its item over (%s)" % status)
+                        parked.append({"type": "resolve", "tag": "order", "events": [("pop", tgt, "v:%s" % w[1])],
+                                       "ret": "push#%d:ok" % i, "own": ("push", i, "ok")})
+                    elif len(queue) < limit:
+                        if status != "ok":
+                            msgs.append("backpressure: push %s with %d < limit %d items waiting" % (status, len(queue), limit))
+                        queue.append(int(w[1]))
+                    else:
+                        if status != "pending":
+                            msgs.append("backpressure: push %s with %d >= limit %d items waiting" % (status, len(queue), limit))
+                        blocked.append(i)
+                elif paused:
+                    parked.append({"type": "resolve", "loose": True})
+            elif w[0] == "pop":
+                i = int(label[4:])
+                pop_order.append(i)
+                pop_state[i] = "incall" if paused else status
+                if status == "v:-666":
+                    msgs.append("corrupt: pop#%d received a destroyed or moved-from item" % i)
+                if strict:
+                    if queue:
+                        v = queue.pop(0)
+                        if blocked:
+                            b = blocked.pop(0)
+                            queue.append(push_val[b])
+                            if not paused:
+                                msgs.append("blocked-fifo: pop with pushes blocked must admit the oldest one (%s)" % status)
+                            parked.append({"type": "resolve", "tag": "blocked-fifo", "events": [("push", b, "ok")],
+                                           "ret": "pop#%d:v:%d" % (i, v), "own": ("pop", i, "v:%d" % v)})
+                        elif status != "v:%d" % v:
+                            seen_ = [int(s_[2:]) for j, s_ in pop_state.items() if j != i and s_.startswith("v:")]
+                            dup = status.startswith("v:") and status[2:].isdigit() and int(status[2:]) in seen_
+                            msgs.append("%s: pop#%d got %s, the oldest waiting item is %d" % ("duplicate" if dup else "order", i, status, v))
+                    else:
+                        if status != "pending":
+                            msgs.append("lost: pop on an empty queue returned %s" % status)
+                        waiters.append(i)
+                elif paused:
+                    parked.append({"type": "resolve", "loose": True})
+            elif w[0] in ("upush", "upop"):
+                lst = blocked if w[0] == "upush" else waiters
+                fk = "push" if w[0] == "upush" else "pop"
+                if strict:
+                    if lst and paused:
+                        tgt = lst.pop(0)
+                        parked.append({"type": "resolve", "tag": "unblock_%s" % fk, "events": [(fk, tgt, "exc:%s" % w[1])],
+                                       "ret": "%s:1" % w[0], "own": None})
+                    elif lst:
+                        # a concurrent call that is still in progress may legitimately take it first
+                        other = ("pop", "upush") if w[0] == "upush" else ("push", "upop")
+                        if status != "0" or len(lst) > takers(other):
+                            msgs.append("unblock_%s: returned %s although %s %s are waiting (nothing else could have taken "
+                                        "them)" % (fk, status, fk, lst))
+                    elif status != "0":
+                        msgs.append("unblock_%s: reported %s with nothing to unblock" % (fk, status))
+                        if paused:
+                            parked.append({"type": "resolve", "loose": True})
+                elif paused:
+                    parked.append({"type": "resolve", "loose": True})
+            elif w[0] == "size":
+                if strict and status.isdigit() and int(status) != len(queue):
+                    msgs.append("size: size() %s but %d items are waiting" % (status, len(queue)))
+                if status.isdigit() and int(status) > limit:
+                    msgs.append("size: size() %s exceeds limit %d" % (status, limit))
+            elif w[0] == "empty":
+                if strict and (status == "1") != (not queue):
+                    msgs.append("size: empty() %s but %d items are waiting" % (status, len(queue)))
+
         for op, line in zip(ops, out):
             w = op.split()
+            if w[0] == "hold" and len(w) > 1:
+                w = w[1:]
             headtxt, _, tail = line.partition(" ; ")
             head = headtxt.split()
             evs = []
@@ -348,10 +459,12 @@ class SLQSuite(Suite):
                 evs.append((m.group(1), int(m.group(2)), m.group(3)))
             evset = sorted(evs)
             if w[0] in ("destroy", "end"):
-                finished = True
+                state["finished"] = True
+                if any(c["type"] != "resolve" for c in parked):
+                    state["concurrent"] = True      # deferred calls take effect during the flush, in an order not shown
                 canceled_push = sorted(i for k, i, o in evs if k == "push" and o == "canceled")
                 canceled_pop = sorted(i for k, i, o in evs if k == "pop" and o == "canceled")
-                if not concurrent:
+                if not state["concurrent"] and all(c["type"] == "resolve" and not c.get("loose") for c in parked):
                     want = []
                     for c in parked:
                         want += list(c["events"]) + ([c["own"]] if c["own"] else [])
@@ -359,6 +472,9 @@ class SLQSuite(Suite):
                     if sorted(want) != evset:
                         msgs.append("destroy: expected %s, got %s" % (sorted(want), evset))
                 for k, i, o in evs:
+                    st = pop_state if k == "pop" else push_state
+                    if i not in st:
+                        st[i] = "incall"        # a deferred call that took effect during the flush
                     settle_future(k, i, o)
                 # the moment after the last call returned and before the queue died
                 for i in canceled_push:
@@ -371,125 +487,88 @@ class SLQSuite(Suite):
                 for i in canceled_pop:
                     pop_state[i] = "canceled"
                 break
-            status = head[1] if len(head) > 1 else ""
+            if head[0] == "bad-op":
+                continue
             if w[0] == "deliver":
                 k = int(w[1])
                 if head[1] == "none":
-                    if not concurrent and k < len(parked):
+                    if not state["concurrent"] and k < len(parked):
                         msgs.append("harness: deliver %d found no call" % k)
+                elif head[1] == "held":
+                    pass
                 else:
+                    r = head[1]
                     ret = head[2][4:] if len(head) > 2 and head[2].startswith("ret=") else ""
+                    lab, _, st = ret.partition(":")
                     c = parked.pop(k) if k < len(parked) else None
-                    if ret in ("again", "midcall"):
-                        concurrent = True
-                        if c:
-                            parked.append(c)
-                    else:
-                        lab, _, st = ret.partition(":")
+                    if c is None:
+                        state["concurrent"] = True
+                    elif st in ("midcall", "blocked") or (st == "paused" and c["type"] == "resolve"):
+                        if st != "blocked":
+                            state["concurrent"] = True
+                        if st == "midcall" and c["type"] == "deferred":
+                            c["type"] = "midcall"
+                        parked.append(c)
+                    elif c["type"] == "resolve":
+                        if r != "r=0":
+                            state["concurrent"] = True
                         if lab.startswith("push#"):
-                            settle_future("push", int(lab[5:]), st) if st != "pending" else push_state.__setitem__(int(lab[5:]), "pending")
+                            if st == "pending":
+                                push_state[int(lab[5:])] = "pending"
+                            else:
+                                settle_future("push", int(lab[5:]), st)
                         elif lab.startswith("pop#"):
-                            settle_future("pop", int(lab[4:]), st) if st != "pending" else pop_state.__setitem__(int(lab[4:]), "pending")
-                        if not concurrent and c is not None:
+                            if st == "pending":
+                                pop_state[int(lab[4:])] = "pending"
+                            else:
+                                settle_future("pop", int(lab[4:]), st)
+                        if not state["concurrent"] and not c.get("loose"):
                             if ret != c["ret"]:
                                 msgs.append("%s: the parked call must return %s, got %s" % (c["tag"], c["ret"], ret))
                             if evset != sorted(c["events"]):
                                 msgs.append("%s: the parked call must resolve exactly %s, got %s" % (c["tag"], sorted(c["events"]), evset))
-                    if head[1] != "r=0":
-                        concurrent = True
+                    else:
+                        want_r = "r=0" if c.get("holding") else "r=1"
+                        if c["type"] == "midcall" or r != want_r:
+                            state["concurrent"] = True
+                        apply(c["w"], c["label"], st)
+                        if evs and not state["concurrent"]:
+                            msgs.append("spurious: `%s` (delivered) resolved %s" % (" ".join(c["w"]), evset))
             else:
-                if status == "midcall" or (len(head) > 2 and head[-1] != "r=1"):
-                    concurrent = True
-                paused = status == "paused"
+                label, status = head[0], (head[1] if len(head) > 1 else "")
+                r = head[2] if len(head) > 2 else ""
                 if w[0] == "push":
-                    i = int(head[0][5:])
-                    push_val[i] = int(w[1])
-                    push_state[i] = "incall" if status in ("paused", "midcall") else status
-                    if status == "midcall":
-                        parked.append({"midcall": True})
-                    if not concurrent:
-                        if waiters:
-                            tgt = waiters.pop(0)
-                            if not paused:
-                                msgs.append("backpressure: push with a consumer waiting must hand its item over (%s)" % status)
-                            parked.append({"tag": "order", "events": [("pop", tgt, "v:%s" % w[1])], "ret": "push#%d:ok" % i,
-                                           "own": ("push", i, "ok")})
-                        elif len(queue) < limit:
-                            if status != "ok":
-                                msgs.append("backpressure: push %s with %d < limit %d items waiting" % (status, len(queue), limit))
-                            queue.append(int(w[1]))
-                        else:
-                            if status != "pending":
-                                msgs.append("backpressure: push %s with %d >= limit %d items waiting" % (status, len(queue), limit))
-                            blocked.append(i)
+                    push_state[int(label[5:])] = "incall"
+                    push_val[int(label[5:])] = int(w[1])
                 elif w[0] == "pop":
-                    i = int(head[0][4:])
-                    pop_state[i] = "incall" if status in ("paused", "midcall") else status
+                    pop_state[int(label[4:])] = "incall"
+                if status in ("holding", "blocked", "midcall"):
                     if status == "midcall":
-                        parked.append({"midcall": True})
-                    if not concurrent:
-                        if queue:
-                            v = queue.pop(0)
-                            if blocked:
-                                b = blocked.pop(0)
-                                queue.append(push_val[b])
-                                if not paused:
-                                    msgs.append("blocked-fifo: pop with pushes blocked must admit the oldest one (%s)" % status)
-                                parked.append({"tag": "blocked-fifo", "events": [("push", b, "ok")], "ret": "pop#%d:v:%d" % (i, v),
-                                               "own": ("pop", i, "v:%d" % v)})
-                            elif status != "v:%d" % v:
-                                kind = "duplicate" if status.startswith("v:") and status[2:].isdigit() and \
-                                    int(status[2:]) in [int(s_[2:]) for s_ in pop_state.values() if s_.startswith("v:")][:-1] else "order"
-                                msgs.append("%s: pop#%d got %s, the oldest waiting item is %d" % (kind, i, status, v))
-                        else:
-                            if status != "pending":
-                                msgs.append("lost: pop on an empty queue returned %s" % status)
-                            waiters.append(i)
-                elif w[0] in ("upush", "upop"):
-                    lst = blocked if w[0] == "upush" else waiters
-                    fk = "push" if w[0] == "upush" else "pop"
-                    if status == "midcall":
-                        parked.append({"midcall": True})
-                    if not concurrent:
-                        if lst:
-                            tgt = lst.pop(0)
-                            if not paused:
-                                msgs.append("unblock_%s: with %s#%d waiting it must take it (%s)" % (fk, fk, tgt, status))
-                            parked.append({"tag": "unblock_%s" % fk, "events": [(fk, tgt, "exc:%s" % w[1])], "ret": "%s:1" % w[0],
-                                           "own": None})
-                        elif status != "0":
-                            msgs.append("unblock_%s: reported %s with nothing to unblock" % (fk, status))
-                elif w[0] == "size":
-                    if status == "midcall":
-                        parked.append({"midcall": True})
-                    elif not concurrent:
-                        if int(status) != len(queue):
-                            msgs.append("size: size() %s but %d items are waiting" % (status, len(queue)))
-                    if status.isdigit() and int(status) > limit:
-                        msgs.append("size: size() %s exceeds limit %d" % (status, limit))
-                elif w[0] == "empty":
-                    if status == "midcall":
-                        parked.append({"midcall": True})
-                    elif not concurrent and (status == "1") != (not queue):
-                        msgs.append("size: empty() %s but %d items are waiting" % (status, len(queue)))
-                if evs and not concurrent:
-                    msgs.append("spurious: `%s` resolved %s" % (op, evset))
-            if w[0] != "deliver" or head[1] != "none":
-                for k_, i, o in evs:
-                    settle_future(k_, i, o)
+                        state["concurrent"] = True
+                    parked.append({"type": "midcall" if status == "midcall" else "deferred", "w": w, "label": label,
+                                   "holding": status == "holding"})
+                else:
+                    if r not in ("r=1", "r=0"):
+                        state["concurrent"] = True      # more lock regions than the operation has
+                    apply(w, label, status)
+                    if evs and not state["concurrent"]:
+                        msgs.append("spurious: `%s` resolved %s" % (op, evset))
+            for k_, i, o in evs:
+                settle_future(k_, i, o)
             if not parked and not any(s_ == "incall" for s_ in list(push_state.values()) + list(pop_state.values())):
                 quiescent_check("after `%s`" % op)
-        if not finished:
+        if not state["finished"]:
             msgs.append("hang: the trace ends before the queue was destroyed (%d lines for %d ops)" % (len(out), len(ops)))
         elif any(s_ in ("pending", "incall") for s_ in list(pop_state.values()) + list(push_state.values())):
             msgs.append("hang: a future is still pending after the queue was destroyed")
-        got = [int(pop_state[i][2:]) for i in sorted(pop_state) if pop_state[i].startswith("v:")]
-        surv = [push_val[i] for i in sorted(push_val) if push_state.get(i) == "ok"]
-        if len(set(got)) != len(got):
-            msgs.append("duplicate: an item was delivered twice: %s" % got)
-        elif not set(got) <= set(push_val.values()):
-            msgs.append("spurious: delivered %s, pushed %s" % (got, sorted(push_val.values())))
-        elif not concurrent and got != surv[:len(got)]:
+        got = [int(pop_state[i][2:]) for i in pop_order if pop_state.get(i, "").startswith("v:")]
+        surv = [push_val[i] for i in push_order if push_state.get(i) == "ok"]
+        allgot = [int(s_[2:]) for s_ in pop_state.values() if s_.startswith("v:")]
+        if len(set(allgot)) != len(allgot):
+            msgs.append("duplicate: an item was delivered twice: %s" % sorted(allgot))
+        elif not set(allgot) <= set(push_val.values()) | {-666}:
+            msgs.append("spurious: delivered %s, pushed %s" % (sorted(allgot), sorted(push_val.values())))
+        elif not state["concurrent"] and len(got) == len(allgot) and got != surv[:len(got)]:
             msgs.append("order: delivered %s (by pop arrival) is not the prefix of the accepted pushes %s" % (got, surv))
         seen, res = set(), []
         for m in msgs:
